@@ -153,6 +153,7 @@ class BuildResult:
         self.wall = 0.0
         self.checker_cmd = ''
         self.facts_error = None
+        self.coqchk = None
 
 
 def build_property(pid, mod, tier='quick', verbose=False):
@@ -220,6 +221,16 @@ def build_property(pid, mod, tier='quick', verbose=False):
         if br.assumptions.get(n) is None and br.ok:
             br.ok = False
             br.broken.append('no Print Assumptions output for %s' % n)
+    # 4b. thorough tier: independent re-check of the compiled theorems with coqchk
+    br.coqchk = None
+    if tier == 'thorough' and br.ok and os.environ.get('VERIF_COQCHK', '1') == '1':
+        mods = ['%s.%s' % (pid, os.path.basename(fn)[:-2]) for fn in files if os.path.basename(fn).startswith('Props')]
+        rc, out, _ = sh(['coqchk', '-silent', '-o'] + flags + mods, cwd=d, timeout=3000)
+        summ = out[out.find('CONTEXT SUMMARY'):] if 'CONTEXT SUMMARY' in out else out[-1500:]
+        br.coqchk = {'rc': rc, 'summary': ' '.join(summ.split())[:3000]}
+        if rc != 0:
+            br.ok = False
+            br.broken.append('coqchk rejected the compiled development: ' + out[-600:])
     # 5. OCaml driver
     ml = os.path.join(d, 'model.ml')
     drv_src = os.path.join(VERIF, 'ocaml', '%s_driver.ml' % pid.lower())
@@ -465,6 +476,7 @@ def finish(ctx, mod):
             'exhaustive': bool(ctx.exhaustive),
             'notes': ctx.notes,
             'build_wall_s': round(br.wall, 1) if br else None,
+            'coqchk': br.coqchk if br else None,
         },
         'assumptions': list(getattr(mod, 'ASSUMPTIONS', [])),
         'wall_s': round(ctx.elapsed(), 1),
